@@ -100,6 +100,7 @@ package isaacdatabase
 //@   requires height >= 0 && height < 4611686018427387904
 //@   ensures r0 == nil || exists(k, 0 <= k && k < len(db.temps) && r0 == db.temps[k])
 //@   ensures [at-height] r0 != nil ==> r0.Height() == height
+//@   ensures [none-at-height] r0 == nil ==> len(db.temps) == 0 || height > db.temps[0].Height() || height < db.temps[len(db.temps)-1].Height()
 // A proof found among the temporaries for suffrage height s belongs to a block
 // whose suffrage height is exactly s.
 //@ func (*Center).suffrageProofInTemps
@@ -119,6 +120,11 @@ package isaacdatabase
 //@   callsite SuffrageProofByBlockHeight requires a0 <= height
 //@   callsite SuffrageProof requires recv.Height() <= height
 //@   loop 0 invariant forall(k, 0 <= k && k < len(temps) ==> temps[k] != nil)
+// the permanent store is the answer only when no temporary at or below the
+// height holds a proof: the scan of the temporaries skips the ones above the
+// height and looks at every other one
+//@   callsite SuffrageProofByBlockHeight requires forall(k, 0 <= k && k < len(temps) && temps[k].Height() <= height ==> !snd(temps[k].SuffrageProof()))
+//@   loop 0 invariant forall(k, 0 <= k && k <= rangeindex && temps[k].Height() <= height ==> !snd(temps[k].SuffrageProof()))
 
 // ---- C23: expel-operation lookups match the stored ranges --------------------------------
 //
@@ -155,6 +161,28 @@ package isaacdatabase
 //@   ensures [local-exactly] r1 == nil ==> bdel == old(bdel) + ite(r.End() <= old(heighti), 1, 0)
 //@   callsite Delete requires r.End() <= heighti && a0 == key
 
+// the key a record is stored under: ordered by the END of its range (the
+// traversals above stop at the first record that ended below the height, which
+// is only right in this order), then the fact hash
+//@ package github.com/spikeekips/mitum/base
+//@ func (Height).Bytes
+//@   trusted
+//@   pure
+//@ package github.com/spikeekips/mitum/storage/leveldb
+//@ func NewPrefixKey
+//@   trusted
+//@   pure
+//@ package github.com/spikeekips/mitum/isaac/database
+//@ func leveldbSuffrageExpelOperation
+//@   prop C23
+//@   pure
+//@   requires fact != nil
+//@   callsite NewPrefixKey requires a0 == leveldbKeySuffrageExpelOperation && len(a1) == 2 && a1[0] == fact.ExpelEnd().Bytes() && a1[1] == fact.Hash().Bytes()
+//@ func newSuffrageExpelOperationKey
+//@   prop C23
+//@   requires fact != nil
+//@   ensures [key] r0 == leveldbSuffrageExpelOperation(fact)
+
 // ---- C22: the operation pool hands out a de-duplicated set -------------------------------
 //
 // The callback OperationHashes runs on every stored record (verified on its own;
@@ -172,12 +200,45 @@ package isaacdatabase
 //@   pure
 //@   ensures r0 != nil
 //@ package github.com/spikeekips/mitum/isaac/database
+//@ ghost fok int
 //@ func (*TempPool).OperationHashes$3
 //@   prop C22
 //@   requires nfilter != nil && facts != nil && len(ops) == limit && opsindex < limit && limit < 4611686018427387904
 //@   requires forall(string(q), has(facts, q) ==> facts[q] < opsindex)
 //@   fnparam nfilter pure
 //@   ensures [local-bounded] r1 == nil ==> opsindex <= limit && (opsindex == limit ==> !r0)
+
+// a rejected record leaves the collection as it was: nothing enters the set
+// without the caller's filter having accepted it
+// (fok: the answer of the caller's filter for this record)
+//@   fnparam nfilter ensures r0 == (fok == 1)
+//@   ensures [local-filtered] r1 == nil && snd(ReadFrameHeaderOperation(b)) == nil && fok != 1 ==> ops == old(ops) && opsindex == old(opsindex)
+
+// storing an operation: whether it is there already is decided by the record
+// under the operation's own key, and that is the key the body is written to
+//@ func leveldbNewOperationKey
+//@   trusted
+//@   pure
+//@   ensures len(r0) < 1099511627776
+//@ func leveldbNewOperationKeysKey
+//@   trusted
+//@   pure
+//@   ensures len(r0) < 1099511627776
+//@ func leveldbNewOperationOrderedKey
+//@   trusted
+//@   ensures len(r0) < 1099511627776
+//@ func WriteFrameHeaderOperation
+//@   trusted
+//@   pure
+//@ func (*TempPool).setOpCache
+//@   trusted
+//@ func (*TempPool).SetOperation
+//@   prop C22
+//@   requires db != nil && op != nil && db.baseLeveldb != nil && (db.baseLeveldb.pst != nil ==> db.baseLeveldb.pst.Storage != nil && len(db.baseLeveldb.pst.prefix) < 1099511627776)
+//@   callsite Exists requires a0 == leveldbNewOperationKey(op.Hash())
+//@   callsite Put requires exfound == 0 && (a0 == leveldbNewOperationKey(op.Hash()) || a0 == leveldbNewOperationKeysKey(op.Hash()) || a1 == fst(WriteFrameHeaderOperation(op)))
+//@   callsite Batch requires exfound == 0
+//@   ensures [stored-flag] r1 == nil && r0 ==> exfound == 0
 
 // cleanup deletes only entries that are at least `deep` heights below the
 // newest stored height (or whose height cannot be read from the key)
